@@ -103,6 +103,8 @@ func (h *hist) invalid(kind string, n int) string {
 var (
 	backendOnce sync.Once
 	backendLn   net.Listener
+	// how long the backend's health endpoint takes to answer
+	healthDelayMs int32 = 250
 )
 
 func backendAddr() string {
@@ -114,7 +116,7 @@ func backendAddr() string {
 		backendLn = ln
 		go http.Serve(ln, http.HandlerFunc(func(w http.ResponseWriter, r *http.Request) {
 			if r.URL.Path == "/health" {
-				time.Sleep(250 * time.Millisecond)
+				time.Sleep(time.Duration(atomic.LoadInt32(&healthDelayMs)) * time.Millisecond)
 				w.WriteHeader(200)
 				return
 			}
@@ -391,6 +393,19 @@ func runHistory(c *lib.Ctx, hid, nReloads, W int) {
 	for step := 0; step < nReloads; step++ {
 		var rr reloadRec
 		var text string
+		if mode == 0 {
+			// during the first three reloads of a plain history the health probe of
+			// the proxied site takes 2.6 s (inside its 3 s timeout): stopping the old
+			// instance has to wait for the probe under way, however long that takes,
+			// and the reload is still a success
+			switch step {
+			case 0:
+				atomic.StoreInt32(&healthDelayMs, 2600)
+				c.Count("reloads_waiting_for_a_slow_health_probe", 3)
+			case 3:
+				atomic.StoreInt32(&healthDelayMs, 250)
+			}
+		}
 		if step%3 == 2 {
 			kind := invalidKinds[(step/3+hid)%len(invalidKinds)]
 			bad := 1000 + step // a marker no valid configuration ever carries
